@@ -7,7 +7,7 @@
 (* the names of the violated clauses in `bad`, so that the rest of the     *)
 (* trace is still checked and a rejection can be attributed.               *)
 (***************************************************************************)
-EXTENDS HpxRing, TLC, Json, IOUtils
+EXTENDS HpxRing, HpxZoc, TLC, Json, IOUtils
 Rec == ndJsonDeserialize(IOEnv.TRACE)
 VARIABLES l, bad
 tvars == <<l, bad>>
@@ -79,6 +79,17 @@ RingCenterC(e) == LET N == e.n
 RingBadC(e) == << <<"nopanic_center", e.pc = 1>>, <<"nopanic_vertices", e.pv = 1>>, <<"nopanic_sph_coo", e.ps = 1>>,
                   <<"nopanic_hash", e.ph = 1>>, <<"nopanic_hash_dxdy", e.phd = 1>> >>
 
+(* ---- bit-level encodings (C18) ---- *)
+ZocC(e) == << <<"panic", e.p = 0>>, <<"interleave", e.h = Interleave(e.i, e.j)>>,
+              <<"inverse", e.i2 = e.i /\ e.j2 = e.j>>,
+              <<"restrict_i", e.hi0 = Interleave(e.i, ZeroBits(32))>>,
+              <<"restrict_j", e.h0j = Interleave(ZeroBits(32), e.j)>> >>
+UniqC(e) == << <<"panic", e.p = 0>>, <<"uniq", e.u = Uniq(e.b, e.path)>>, <<"uniq_ivoa", e.ui = UniqIvoa(e.b, e.path)>>,
+               <<"layer_same", e.lsame = 1>>,
+               <<"from_uniq", e.fu.d = e.d /\ e.fu.b = e.b /\ e.fu.p = e.path>>,
+               <<"from_uniq_ivoa", e.fui.d = e.d /\ e.fui.b = e.b /\ e.fui.p = e.path>> >>
+UniqBadC(e) == << <<"nopanic_to_uniq", e.pu = 1>>, <<"nopanic_to_uniq_ivoa", e.pi = 1>> >>
+
 Clauses(e) == CASE e.ev = "hash" -> HashC(e)
                 [] e.ev = "hash_bad" -> HashBadC(e)
                 [] e.ev = "hier" -> HierC(e)
@@ -91,6 +102,9 @@ Clauses(e) == CASE e.ev = "hash" -> HashC(e)
                 [] e.ev = "ring_hash" -> RingHashC(e)
                 [] e.ev = "ring_center" -> RingCenterC(e)
                 [] e.ev = "ring_bad" -> RingBadC(e)
+                [] e.ev = "zoc" -> ZocC(e)
+                [] e.ev = "uniq" -> UniqC(e)
+                [] e.ev = "uniq_bad" -> UniqBadC(e)
                 [] OTHER -> << <<"unknown_event", FALSE>> >>
 
 Init == l = 1 /\ bad = <<>>
